@@ -88,7 +88,7 @@ class Check(c05.Check):
                 'bodies that raise, bundle sends carrying the last drawn value, '
                 'yield inf; 60% single-clock (SystemClock or one TempoClock incl. tempo changes) run in RT under '
                 'arbitrary scripted lateness and required to equal the NRT trace exactly; multi-clock programs are '
-                'compared per routine; note events of an instrument with gate and 7 other controls (NRT); every program runs in two fresh NRT processes with different PYTHONHASHSEED (byte-identical score). '
+                'compared per routine; Pseed streams pulled between the own draws of a routine and forks (k-th value = k-th number of the seed, no program generator read or replaced); note events of an instrument with gate and 7 other controls (NRT); every program runs in two fresh NRT processes with different PYTHONHASHSEED (byte-identical score). '
                 'Non-trivial: >=2 routines and at least one of pause/resume/stop/wait/signal/tempo/draw executed in '
                 'a program with a positive delta; distinct by full case')
 
@@ -150,7 +150,10 @@ class Check(c05.Check):
             for _ in range(ny):
                 acts.append(['y', rng.choice(DELTAS)])
                 w = rng.random()
-                if w < 0.06:
+                if w < 0.04:
+                    # one more value of this routine's Pseed stream, between its own draws and forks
+                    acts.append(['pseed'])
+                elif w < 0.08:
                     # a note event of an instrument with a gate and several controls (NRT score only)
                     acts.append(['note', rng.randrange(12)])
                 elif w < 0.35:
@@ -263,7 +266,9 @@ class Check(c05.Check):
                 vals = [rng.choice(['1/2', '1', '3', '1/4', '0', '1/1024']) for _ in range(rng.randint(1, 5))]
             late = {'mode': mode, 'vals': vals}
         return {'tempi': tempi, 'root': root, 'rts': rts, 'late': late, 'klass': 'S' if single else 'M',
-                'tail': rng.choice(['0', '0', '1/2', '2']), 'rerun': rng.random() < 0.35}
+                'tail': rng.choice(['0', '0', '1/2', '2']),
+                # (a restored rand_state followed by a second play is outside the bookkeeping of the runner)
+                'rerun': rng.random() < 0.35 and not any(a[0] == 'restore' for s in rts for a in s)}
 
     # two fresh processes differ in Python's per-process string hash seed, as two runs of a script do
     nrt_env = {'PYTHONHASHSEED': '1'}
